@@ -12,6 +12,7 @@ import (
 	"math/rand"
 	"net"
 	"os"
+	"reflect"
 	"strings"
 	"sync"
 	"syscall"
@@ -65,7 +66,9 @@ type vh03World struct {
 	errFor string // if set, only calls of this method fail
 	xval   []byte
 	xnames []string
-	ans    string // canonical rendering of the success values answered
+	gate   chan struct{} // when set: the next backend RenameAt waits for it (once)
+	inside chan struct{}
+	ans    []vh03Val // the success values answered, flattened field by field
 	record bool
 }
 
@@ -100,12 +103,48 @@ func (f *vh03File) rec(m string, args ...vh03Val) error {
 	return f.w.err
 }
 
-func (f *vh03File) setAns(format string, a ...interface{}) {
+func (f *vh03File) setAns(a ...interface{}) {
 	f.w.mu.Lock()
 	if f.w.record {
-		f.w.ans = fmt.Sprintf(format, a...)
+		f.w.ans = vh03Flat(a...)
 	}
 	f.w.mu.Unlock()
+}
+
+// vh03Flat flattens values field by field: integers and booleans as numbers, strings as bytes,
+// slices as their length followed by their elements.
+func vh03Flat(a ...interface{}) []vh03Val {
+	out := []vh03Val{}
+	var walk func(v reflect.Value)
+	walk = func(v reflect.Value) {
+		switch v.Kind() {
+		case reflect.Bool:
+			out = append(out, vh03N(vh03B(v.Bool())))
+		case reflect.Int, reflect.Int8, reflect.Int16, reflect.Int32, reflect.Int64:
+			out = append(out, vh03N(uint64(v.Int())))
+		case reflect.Uint, reflect.Uint8, reflect.Uint16, reflect.Uint32, reflect.Uint64, reflect.Uintptr:
+			out = append(out, vh03N(v.Uint()))
+		case reflect.String:
+			out = append(out, vh03S(v.String()))
+		case reflect.Struct:
+			for i := 0; i < v.NumField(); i++ {
+				walk(v.Field(i))
+			}
+		case reflect.Slice, reflect.Array:
+			out = append(out, vh03N(uint64(v.Len())))
+			for i := 0; i < v.Len(); i++ {
+				walk(v.Index(i))
+			}
+		case reflect.Interface, reflect.Ptr:
+			if !v.IsNil() {
+				walk(v.Elem())
+			}
+		}
+	}
+	for _, x := range a {
+		walk(reflect.ValueOf(x))
+	}
+	return out
 }
 
 func (f *vh03File) qid() QID {
@@ -169,7 +208,7 @@ func (f *vh03File) GetAttr(req AttrMask) (QID, AttrMask, Attr, error) {
 	}
 	a := Attr{Mode: f.mode, UID: 1001, GID: 1002, NLink: 3, RDev: 0x1234567890, Size: 1 << 40, BlockSize: 4096, Blocks: 99, ATimeSeconds: 1 << 33, MTimeNanoSeconds: 999999999, Gen: 5, DataVersion: 6}
 	v := AttrMask{Mode: true, UID: true, GID: true, Size: true, NLink: true}
-	f.setAns("%+v %+v %+v", f.qid(), v, a)
+	f.setAns(f.qid(), v, a)
 	return f.qid(), v, a, nil
 }
 
@@ -181,14 +220,14 @@ func (f *vh03File) StatFS() (FSStat, error) {
 		return FSStat{}, err
 	}
 	s := FSStat{Type: 0x01021997, BlockSize: 4096, Blocks: 1 << 40, BlocksFree: 1 << 39, BlocksAvailable: 3, Files: 1 << 33, FilesFree: 2, FSID: 1<<63 + 5, NameLength: 255}
-	f.setAns("%+v", s)
+	f.setAns(s)
 	return s, nil
 }
 func (f *vh03File) Open(flags OpenFlags) (QID, uint32, error) {
 	if err := f.rec("Open", vh03N(uint64(flags))); err != nil {
 		return QID{}, 0, err
 	}
-	f.setAns("%+v %d", f.qid(), 8192)
+	f.setAns(f.qid(), 8192)
 	return f.qid(), 8192, nil
 }
 func (f *vh03File) FSync() error { return f.rec("FSync") }
@@ -196,7 +235,7 @@ func (f *vh03File) Lock(pid int, lt LockType, fl LockFlags, start, length uint64
 	if err := f.rec("Lock", vh03N(uint64(pid)), vh03N(uint64(lt)), vh03N(uint64(fl)), vh03N(start), vh03N(length), vh03S(client)); err != nil {
 		return LockStatusError, err
 	}
-	f.setAns("%d", LockStatusBlocked)
+	f.setAns(LockStatusBlocked)
 	return LockStatusBlocked, nil
 }
 func (f *vh03File) Create(name string, flags OpenFlags, perm FileMode, uid UID, gid GID) (File, QID, uint32, error) {
@@ -204,7 +243,7 @@ func (f *vh03File) Create(name string, flags OpenFlags, perm FileMode, uid UID, 
 		return nil, QID{}, 0, err
 	}
 	c := f.w.newFile(ModeRegular|0o600, name, f)
-	f.setAns("%+v %d", c.qid(), 4096)
+	f.setAns(c.qid(), 4096)
 	return c, c.qid(), 4096, nil
 }
 func (f *vh03File) Mkdir(name string, perm FileMode, uid UID, gid GID) (QID, error) {
@@ -212,7 +251,7 @@ func (f *vh03File) Mkdir(name string, perm FileMode, uid UID, gid GID) (QID, err
 		return QID{}, err
 	}
 	q := QID{Type: TypeDir, Version: 1, Path: 1 << 60}
-	f.setAns("%+v", q)
+	f.setAns(q)
 	return q, nil
 }
 func (f *vh03File) Symlink(oldName, newName string, uid UID, gid GID) (QID, error) {
@@ -220,7 +259,7 @@ func (f *vh03File) Symlink(oldName, newName string, uid UID, gid GID) (QID, erro
 		return QID{}, err
 	}
 	q := QID{Type: TypeSymlink, Version: 2, Path: 77}
-	f.setAns("%+v", q)
+	f.setAns(q)
 	return q, nil
 }
 func (f *vh03File) Link(target File, newName string) error {
@@ -235,13 +274,21 @@ func (f *vh03File) Mknod(name string, mode FileMode, major, minor uint32, uid UI
 		return QID{}, err
 	}
 	q := QID{Type: TypeRegular, Version: 3, Path: 78}
-	f.setAns("%+v", q)
+	f.setAns(q)
 	return q, nil
 }
 func (f *vh03File) RenameAt(oldName string, newDir File, newName string) error {
 	h := -1
 	if t, ok := newDir.(*vh03File); ok {
 		h = t.h
+	}
+	f.w.mu.Lock()
+	g, in := f.w.gate, f.w.inside
+	f.w.gate = nil
+	f.w.mu.Unlock()
+	if g != nil {
+		close(in)
+		<-g
 	}
 	return f.rec("RenameAt", vh03S(oldName), vh03Val{"h": h}, vh03S(newName))
 }
@@ -253,7 +300,7 @@ func (f *vh03File) Readdir(offset uint64, count uint32) (Dirents, error) {
 		return nil, err
 	}
 	d := Dirents{{QID: QID{Type: TypeRegular, Path: 5}, Offset: 1, Type: TypeRegular, Name: "x\xffy"}, {QID: QID{Type: TypeDir, Path: 6}, Offset: 1 << 40, Type: TypeDir, Name: "dd"}}
-	f.setAns("%+v", d)
+	f.setAns(d)
 	return d, nil
 }
 func (f *vh03File) Readlink() (string, error) {
@@ -261,7 +308,7 @@ func (f *vh03File) Readlink() (string, error) {
 		return "", err
 	}
 	t := "tar\x00get/\xfe"
-	f.setAns("%q", t)
+	f.setAns(t)
 	return t, nil
 }
 
@@ -407,7 +454,7 @@ func vh03One(t *testing.T, o *vhOut, id int, r *rand.Rand, op string, version in
 
 	params := map[string]vh03Val{}
 	pfid := map[string]uint64{}
-	var ret string
+	ret := []vh03Val{}
 	var cerr error
 	name, name2 := vh03Name(r), vh03Name(r)
 	switch op {
@@ -417,33 +464,33 @@ func vh03One(t *testing.T, o *vhOut, id int, r *rand.Rand, op string, version in
 		var q QID
 		var u uint32
 		q, u, cerr = recv.Open(fl)
-		ret = fmt.Sprintf("%+v %d", q, u)
+		ret = vh03Flat(q, u)
 	case "Create":
 		fl, pm, uid, gid := OpenFlags(vh03U32(r)), FileMode(vh03U32(r)), UID(vh03U32(r)), GID(vh03U32(r))
 		params["name"], params["openFlags"], params["permissions"], params["uid"], params["gid"] = vh03S(name), vh03N(uint64(fl)), vh03N(uint64(pm)), vh03N(uint64(uid)), vh03N(uint64(gid))
 		var q QID
 		var u uint32
 		_, q, u, cerr = recv.Create(name, fl, pm, uid, gid)
-		ret = fmt.Sprintf("%+v %d", q, u)
+		ret = vh03Flat(q, u)
 	case "Mkdir":
 		pm, uid, gid := FileMode(vh03U32(r)), UID(vh03U32(r)), GID(vh03U32(r))
 		params["name"], params["permissions"], params["uid"], params["gid"] = vh03S(name), vh03N(uint64(pm)), vh03N(uint64(uid)), vh03N(uint64(gid))
 		var q QID
 		q, cerr = recv.Mkdir(name, pm, uid, gid)
-		ret = fmt.Sprintf("%+v", q)
+		ret = vh03Flat(q)
 	case "Symlink":
 		uid, gid := UID(vh03U32(r)), GID(vh03U32(r))
 		target := vh03Name(r) + "/" + name2
 		params["oldname"], params["newname"], params["uid"], params["gid"] = vh03S(target), vh03S(name), vh03N(uint64(uid)), vh03N(uint64(gid))
 		var q QID
 		q, cerr = recv.Symlink(target, name, uid, gid)
-		ret = fmt.Sprintf("%+v", q)
+		ret = vh03Flat(q)
 	case "Mknod":
 		md, mj, mn, uid, gid := FileMode(vh03U32(r)), vh03U32(r), vh03U32(r), UID(vh03U32(r)), GID(vh03U32(r))
 		params["name"], params["mode"], params["major"], params["minor"], params["uid"], params["gid"] = vh03S(name), vh03N(uint64(md)), vh03N(uint64(mj)), vh03N(uint64(mn)), vh03N(uint64(uid)), vh03N(uint64(gid))
 		var q QID
 		q, cerr = recv.Mknod(name, md, mj, mn, uid, gid)
-		ret = fmt.Sprintf("%+v", q)
+		ret = vh03Flat(q)
 	case "Link":
 		params["newname"] = vh03S(name)
 		pfid["target"] = uint64(otherF.fid)
@@ -465,14 +512,14 @@ func vh03One(t *testing.T, o *vhOut, id int, r *rand.Rand, op string, version in
 	case "Readlink":
 		var s string
 		s, cerr = recv.Readlink()
-		ret = fmt.Sprintf("%q", s)
+		ret = vh03Flat(s)
 	case "GetAttr":
 		m := AttrMask{Mode: r.Intn(2) == 0, NLink: r.Intn(2) == 0, UID: r.Intn(2) == 0, GID: r.Intn(2) == 0, RDev: r.Intn(2) == 0, ATime: r.Intn(2) == 0, MTime: r.Intn(2) == 0,
 			CTime: r.Intn(2) == 0, INo: r.Intn(2) == 0, Size: r.Intn(2) == 0, Blocks: r.Intn(2) == 0, BTime: r.Intn(2) == 0, Gen: r.Intn(2) == 0, DataVersion: r.Intn(2) == 0}
 		params["req"] = vh03Mask(m)
 		q, v, a, e := recv.GetAttr(m)
 		cerr = e
-		ret = fmt.Sprintf("%+v %+v %+v", q, v, a)
+		ret = vh03Flat(q, v, a)
 	case "SetAttr":
 		m := SetAttrMask{Permissions: r.Intn(2) == 0, UID: r.Intn(2) == 0, GID: r.Intn(2) == 0, Size: r.Intn(2) == 0, ATime: r.Intn(2) == 0, MTime: r.Intn(2) == 0, CTime: r.Intn(2) == 0,
 			ATimeNotSystemTime: r.Intn(2) == 0, MTimeNotSystemTime: r.Intn(2) == 0}
@@ -482,7 +529,7 @@ func vh03One(t *testing.T, o *vhOut, id int, r *rand.Rand, op string, version in
 	case "StatFS":
 		s, e := recv.StatFS()
 		cerr = e
-		ret = fmt.Sprintf("%+v", s)
+		ret = vh03Flat(s)
 	case "FSync":
 		cerr = recv.FSync()
 	case "Lock":
@@ -491,16 +538,16 @@ func vh03One(t *testing.T, o *vhOut, id int, r *rand.Rand, op string, version in
 		params["pid"], params["locktype"], params["flags"], params["start"], params["length"], params["client"] = vh03N(uint64(pid)), vh03N(uint64(lt)), vh03N(uint64(fl)), vh03N(st), vh03N(ln), vh03S(name)
 		s, e := recv.Lock(pid, lt, fl, st, ln, name)
 		cerr = e
-		ret = fmt.Sprintf("%d", s)
+		ret = vh03Flat(s)
 	case "Readdir":
 		off, cnt := vh03U64(r), vh03U32(r)
 		params["offset"], params["count"] = vh03N(off), vh03N(uint64(cnt))
 		d, e := recv.Readdir(off, cnt)
 		cerr = e
-		ret = fmt.Sprintf("%+v", d)
+		ret = vh03Flat(d)
 		if cnt < 512 {
 			// the reply is cut to whole entries within count bytes (C19): values are compared for roomy counts only
-			ret = "cut"
+			ret = nil
 		}
 	case "Walk":
 		var names []string
@@ -555,8 +602,11 @@ func vh03One(t *testing.T, o *vhOut, id int, r *rand.Rand, op string, version in
 	if fail {
 		rec["answer"] = ans.J
 	} else {
-		if ret == "cut" {
-			bans = "cut"
+		if ret == nil {
+			ret, bans = []vh03Val{}, []vh03Val{}
+		}
+		if bans == nil {
+			bans = []vh03Val{}
 		}
 		rec["ret"] = ret
 		rec["ans"] = bans
@@ -758,6 +808,93 @@ func vh03Wga(t *testing.T, o *vhOut, id int, r *rand.Rand, version int, ncomp in
 		"getattr_fails": getattrFails, "calls": calls, "err": vhclClassify(cerr)})
 }
 
+// vh03Rename2: "Rename arrives as RenameAt on the parent under the entry's CURRENT name": the entry is renamed
+// (sequentially, or by a RenameAt that is still inside the backend when the Rename request arrives) and then
+// renamed again through the same handle.
+func vh03Rename2(t *testing.T, o *vhOut, id int, r *rand.Rand, version int, racing bool) {
+	w := &vh03World{}
+	root := w.newFile(ModeDirectory|0o755, "", nil)
+	pr, err := vhclPair(vhclAttacher{func() (File, error) { return root, nil }}, 8192, version)
+	if err != nil {
+		t.Fatalf("C03 rename2 pair: %v", err)
+	}
+	defer pr.Close()
+	croot, err := pr.c.Attach("")
+	if err != nil {
+		t.Fatalf("C03 rename2 attach: %v", err)
+	}
+	walk := func(name string) *clientFile {
+		_, f, err := croot.Walk([]string{name})
+		if err != nil {
+			t.Fatalf("C03 rename2 walk: %v", err)
+		}
+		return f.(*clientFile)
+	}
+	recv := walk("f1") // handle 1
+	d2 := walk("d2")   // handle 2
+	first, second := "g"+vh03Name(r), "h"+vh03Name(r)
+	if racing {
+		w.mu.Lock()
+		w.gate, w.inside = make(chan struct{}), make(chan struct{})
+		g, in := w.gate, w.inside
+		w.mu.Unlock()
+		done1 := make(chan error, 1)
+		go func() { done1 <- croot.RenameAt("f1", d2, first) }()
+		<-in // the first rename is inside the backend, the server holds the rename lock
+		w.mu.Lock()
+		w.record = true
+		w.mu.Unlock()
+		done2 := make(chan error, 1)
+		go func() { done2 <- recv.Rename(d2, second) }()
+		time.Sleep(250 * time.Millisecond) // the second request has been received and waits for the lock
+		close(g)
+		if err := <-done1; err != nil {
+			t.Fatalf("C03 rename2 first: %v", err)
+		}
+		err = <-done2
+	} else {
+		if err := recv.Rename(d2, first); err != nil {
+			t.Fatalf("C03 rename2 first: %v", err)
+		}
+		w.mu.Lock()
+		w.record = true
+		w.mu.Unlock()
+		err = recv.Rename(d2, second)
+	}
+	w.mu.Lock()
+	w.record = false
+	log := append([]vh03Call(nil), w.log...)
+	w.mu.Unlock()
+	var calls []map[string]interface{}
+	for _, c := range log {
+		if c.M != "RenameAt" || (racing && len(c.Args) > 0 && fmt.Sprint(c.Args[0]["s"]) == fmt.Sprint(vhBytes([]byte("f1")))) && c.On == 0 {
+			continue // the first rename itself (recorded when it left the gate)
+		}
+		on := map[string]interface{}{"fid": uint64(0)}
+		if c.On == 2 { // the entry's parent is d2 by now
+			on = map[string]interface{}{"parentof": uint64(recv.fid)}
+		}
+		var args []vh03Val
+		for i, a := range c.Args {
+			if h, ok := a["h"]; ok {
+				a = vh03Val{"f": map[int]uint64{0: uint64(croot.(*clientFile).fid), 1: uint64(recv.fid), 2: uint64(d2.fid)}[h.(int)]}
+			}
+			if i == 0 && fmt.Sprint(a["s"]) == fmt.Sprint(vhBytes([]byte(first))) {
+				a = vh03Val{"nameof": uint64(recv.fid)}
+			}
+			args = append(args, a)
+		}
+		calls = append(calls, map[string]interface{}{"m": c.M, "on": on, "args": args})
+	}
+	sub := "sequential"
+	if racing {
+		sub = "racing"
+	}
+	o.Emit(map[string]interface{}{"kind": "op", "sub": "rename-again-" + sub, "id": id, "op": "Rename", "version": version,
+		"params": map[string]vh03Val{"name": vh03S(second)}, "pfid": map[string]uint64{"dir": uint64(d2.fid)}, "fid": uint64(recv.fid),
+		"msize": pr.c.messageSize, "calls": calls, "err": vhclClassify(err), "fail": false, "ret": []vh03Val{}, "ans": []vh03Val{}})
+}
+
 func TestVerifC03(t *testing.T) {
 	o := vhOpen(t)
 	defer o.Close()
@@ -797,6 +934,14 @@ func TestVerifC03(t *testing.T) {
 				}
 			}
 			vh03Xattr(t, o, id, r, false, msize, size, 0, true)
+			id++
+		}
+	}
+	for v := 0; v <= int(highestSupportedVersion); v += 7 {
+		vh03Rename2(t, o, id, r, v, false)
+		id++
+		for k := 0; k < 3; k++ {
+			vh03Rename2(t, o, id, r, v, true)
 			id++
 		}
 	}
